@@ -90,6 +90,11 @@ def one(args):
         elif mode == "missing":
             main, files = lines[:2] + [" INCLUDE nosuch.asm\n"] + lines[2:], {}
             t["kind"] = "include-reject"
+        elif mode == "notext":
+            # the file named is there but is not a text file (bytes that are not UTF-8), or is a directory: a diagnostic, not a traceback
+            main, files = lines[:2] + [" INCLUDE %s\n" % ("blob.bin" if k % 2 else "sub")] + lines[2:], {}
+            open(os.path.join(base, "blob.bin"), "wb").write(b" FCB 1\n" + bytes(rnd.choice([[0xFF, 0xFE], [0xC3, 0x28], [0x80], [0xE2, 0x82], [0xF8, 0x88, 0x80]])) + b" NOP \n")
+            t["kind"] = "include-reject"
         else:    # cycles of length 1..3
             n = rnd.choice([1, 2, 3])
             cyc = rnd.sample(["cyc.asm", "c.asm", "yc.asm", "sub/c.asm"], n)
@@ -175,7 +180,7 @@ def run(ctx):
     ctx.add_model("MC_Include(3 files, <=2 items)", r, {"invariants": ["TextualInclusion", "RejectsExactly", "StackBounded", "Terminates (liveness)"]})
     t0 = time.time()
     n = 20000 if thorough else 700
-    modes = ["tree"] * 5 + ["every-boundary"] * 3 + ["twice", "missing", "cycle"]
+    modes = ["tree"] * 5 + ["every-boundary"] * 3 + ["twice", "missing", "cycle", "notext"]
     os.environ["VERIF_SCRATCH"] = tlc.OUT
     with mp.Pool(16) as pool:
         ts = pool.map(one, [(k, rnd.randrange(1 << 40), modes[k % len(modes)]) for k in range(n)], chunksize=10)
